@@ -259,6 +259,19 @@ class FlowGen(object):
             # both bounds through a run-translated call (INT(lo.5) = lo): two temporaries in one FOR statement
             a = ("fn", "INT", [("num", a[1] + 0.5, ["%d.5" % a[1]])])
             b = ("fn", "INT", [("num", b[1] + 0.5, ["%d.5" % b[1]])])
+        y = r.random()
+        if y < 0.08:
+            # the control variable is read before its FOR has run, by a subroutine that stands after the loop in the text
+            t = Target()
+            body = []
+            self.subs.append((t, body))
+            saved = self.items
+            self.items = body
+            self.line([self.mark(v), ("return",)])
+            self.items = saved
+            self.line([("gosub", t)])
+        elif y < 0.12 and a[0] == "num" and a[1] == 0 and self.depth_for == 1:
+            a = ("var", v)             # FOR I=I TO n: the start value is the variable's own (zero) value
         head = ("for", v, a, b, step)
         form = r.random()
         self.for_changes_limit = False
@@ -398,6 +411,12 @@ def compare(prog, optsets, hyp_for=False):
             continue
         if b["status"] != "ok":
             res["problems"].append(("b09-" + b["status"], o, b["error"]))
+            continue
+        un = sorted(set(u for u in b.get("uninit", ()) if not u.startswith("tmp_")))
+        if un and o.get("initialize_vars"):
+            # with pre-initialisation requested nothing the program reads may be unassigned: BASIC09 variables start
+            # with whatever the memory holds, so a branch steered by such a read goes anywhere
+            res["problems"].append(("uninitialised-read", o, {"variables": un[:6]}))
             continue
         got = stream(b["events"])
         if got != want:
